@@ -212,7 +212,7 @@ func genPNG(rt *rapid.T, maxICC int) Case {
 					name[k] = byte(ch)
 				}
 			}
-			level := rapid.SampledFrom([]int{0, 1, 6, 9, -2}).Draw(rt, "level")
+			level := rapid.SampledFrom([]int{0, 1, 6, 9, -2, -10, -11, -12}).Draw(rt, "level")
 			ch := build.ICCPChunk(string(name), prof, level)
 			c.Expect = Expect{Kind: "profile", Profile: prof}
 			note = fmt.Sprintf("iCCP name %d bytes, level %d, profile %d bytes (%d compressed)", nameLen, level, len(prof), len(ch.Data)-nameLen-2)
